@@ -21,7 +21,7 @@ def labelish(rng):
     """mostly-valid label blocks with adversarial values"""
     parts = []
     for _ in range(rng.randrange(0, 4)):
-        name = rng.choice(['a', 'b_1', 'le', '"é x"', '"a\\"b"', '__name__', 'a b', '1a', '"q"', ''])
+        name = rng.choice(['a', '"a"', 'b_1', '"b_1"', 'le', '"le"', '"é x"', '"a\\"b"', '__name__', '"__name__"', 'a b', '1a', '"q"', 'q', ''])
         v = rand_text(rng, 6)
         v = v.replace('\\', '\\\\').replace('\n', '\\n').replace('"', '\\"') if rng.random() < 0.8 else v
         sep = rng.choice(['=', '=', '=', ' = ', '', '=='])
